@@ -50,9 +50,16 @@ T_FOR = {n: _tpl(f"model M\n  Real x[{n}];\n  Real w[{n}];\nequation\n  for i in
 T_LHS = _tpl("model M\n  Real x[3];\n  Real y;\nequation\n  x[7001] = y;\nend M;\n")
 
 
-def _residual(m, nx, extra=1):
+def _concretize(v, lo, hi):
+    for c in range(lo, hi + 1):
+        if v == c:
+            return c
+    return v
+
+
+def _residual(m, nx, extra=1, y=0.0):
     f = m.dae_residual_function
-    vals = PRIMES[:nx] + [0.0] * extra
+    vals = PRIMES[:nx] + [y] * extra
     r = f(0, [], [], vals, [], [], [])
     return [float(r[k]) for k in range(r.numel())]
 
@@ -136,15 +143,19 @@ def slice2(n: int, a: int, b: int) -> int:
     if outside:
         return 0
     if empty:
+        # a:b with b < a is Modelica's empty selection; sum({}) over it is C11's business (on a size-1
+        # array CasADi's sum of a 0x1 matrix makes the whole equation vanish) - only "no element selected"
+        # is demanded here
         f = m.dae_residual_function
-        return 1 if f.n_out() == 0 or f.numel_out(0) == 0 else 0
-    r = _residual(m, n)
+        if f.n_out() == 0 or f.numel_out(0) == 0:
+            return 1
+    r = _residual(m, n, y=1000.0)
     exp = 0.0
     k = a
-    while k <= b:
+    while k <= b:  # empty range: y = sum({}) = 0
         exp += PRIMES[k - 1]
         k += 1
-    return 1 if r == [-exp] else 0
+    return 1 if r == [1000.0 - exp] else 0
 
 
 def slice3(a: int, s: int, b: int) -> int:
@@ -166,11 +177,11 @@ def slice3(a: int, s: int, b: int) -> int:
         return 1 if (outside or empty) else 0
     if outside:
         return 0
-    r = _residual(m, 5)
+    r = _residual(m, 5, y=1000.0)
     exp = 0.0
     for k in sel:
         exp += PRIMES[k - 1]
-    return 1 if r == [-exp] else 0
+    return 1 if r == [1000.0 - exp] else 0
 
 
 def forloop(n: int, a: int, b: int) -> int:
@@ -178,6 +189,8 @@ def forloop(n: int, a: int, b: int) -> int:
     pre: n in (2, 3) and pin(n=n, a=a) and -2 <= a <= n + 2 and -2 <= b <= n + 2
     post: _ == 1
     """
+    a = _concretize(a, -2, n + 2)  # numpy.arange realises loop bounds anyway: fork per value here
+    b = _concretize(b, -2, n + 2)
     t = _inst(T_FOR[n], {7001: a, 7002: b})
     empty = b < a
     outside = (not empty) and (a < 1 or b > n)
